@@ -384,7 +384,7 @@ var nearMisses = [][2]string{
 	{"1e", "number"}, {"1e+", "number"}, {"01", "number"}, {"1a", "number"}, {"0x1g", "number"}, {"1.e", "number"},
 	{"0b", "number"}, {"0o", "number"}, {"1_.5", "number"}, {"1._5", "number"}, {"_1 + 1", "number"}, {"0x1.8", "number"},
 	{"1e1_", "number"}, {"0b1e1", "number"}, {"$[1_]", "number"}, {"$[0x]", "number"}, {"00", "number"}, {"1.5a", "number"},
-	{"0_1", "number"}, {"1..2", "number"}, {".e1", "number"},
+	{"0_1", "number"}, {"1..2", "number"}, {".e1", "number"}, {"08.5", "number"}, {"09e1", "number"}, {"08.", "number"}, {"-09.25", "number"}, {"08_1.5", "number"}, {"$ ? (@ > 08.5)", "number"}, {"09.5e-1", "number"}, {"$[08.0]", "number"},
 	// malformed escapes
 	{`"\u12"`, "escape"}, {`"\u{}"`, "escape"}, {`"\u{1234567}"`, "escape"}, {`"\xZ1"`, "escape"}, {`"\x0"`, "escape"},
 	{`"\u0000"`, "escape"}, {`"\x00"`, "escape"}, {`"\u{0}"`, "escape"}, {`"\u{000000}"`, "escape"}, {`"\ud83d"`, "escape"},
@@ -392,6 +392,7 @@ var nearMisses = [][2]string{
 	{`"\u{12"`, "escape"}, {`$."\u00"`, "escape"}, {`$.a\u00`, "escape"}, {`$.a\x0`, "escape"}, {`$.\u0000`, "escape"},
 	{`$"\x00"`, "escape"}, {`"\`, "escape"}, {`$.a\`, "escape"}, {`"\ude04"`, "escape"},
 	{`"\udc00\udc00"`, "escape"}, {`"\u{dc00}\u{dc00}"`, "escape"}, {`$."\udfff\udc00"`, "escape"}, {`$.a\udc00\udc01`, "escape"}, {`$"\ude00\ude00"`, "escape"}, {`"\ud800\ud800"`, "escape"}, {`"\udc00\ud800"`, "escape"}, {`"x\udbff"`, "escape"},
+	{`"\u{D800}"`, "escape"}, {`"\u{DC00}"`, "escape"}, {`"\u{dfff}x"`, "escape"}, {`$.\u{DC00}`, "escape"}, {`$"\u{D800}"`, "escape"}, {`$ like_regex "\u{DC00}"`, "escape"}, {`"\u{DE00}\u{D83D}"`, "escape"}, {`"\u{0D800}"`, "escape"}, {`"\u{00DBFF}"`, "escape"},
 	// strings and comments
 	{`"abc`, "unterminated-string"}, {"\"a\nb\"", "newline-in-string"}, {`$."abc`, "unterminated-string"}, {`$"abc`, "unterminated-string"},
 	{"$ /* c", "unterminated-comment"}, {"/* $", "unterminated-comment"}, {"$.a /*/", "unterminated-comment"}, {"$ /* * /", "unterminated-comment"},
